@@ -48,3 +48,30 @@ def resolution(fmt: str) -> float:
 
 def is_sexagesimal(fmt: str) -> bool:
     return bool(_SEXA_FMT.match(fmt))
+
+
+def conforms(text: str, fmt: str) -> bool:
+    """Is `text` written the way `fmt` renders numbers (notation, number of fields and fraction
+    digits)? Rounding mode and padding are not judged here - the denoted value is, elsewhere."""
+    t = text.strip()
+    m = _SEXA_FMT.match(fmt)
+    if m:
+        frac = int(m.group(2))
+        pat = {
+            3: r"^-?\d+:\d{2}$",
+            5: r"^-?\d+:\d{2}\.\d$",
+            6: r"^-?\d+:\d{2}:\d{2}$",
+            8: r"^-?\d+:\d{2}:\d{2}\.\d$",
+            9: r"^-?\d+:\d{2}:\d{2}\.\d{2}$",
+        }[frac]
+        return bool(re.match(pat, t))
+    m = _PRINTF.match(fmt)
+    if not m:
+        return True
+    flags, width, prec, conv = m.groups()
+    if conv == "d":
+        return bool(re.match(r"^[+-]?\d+$", t))
+    p = int(prec) if prec is not None else 6
+    if p == 0:
+        return bool(re.match(r"^[+-]?\d+\.?$", t))
+    return bool(re.match(rf"^[+-]?\d+\.\d{{{p}}}$", t))
